@@ -184,8 +184,8 @@ def plain_programs(report):
         for i, (name, src) in enumerate(sorted(pool.all_programs().items()) + sorted(pool.VERSION_SENSITIVE.items())):
             if name in ("long_string_in_field", "zoo_fstrings_pep701"):
                 continue        # host 3.12+ syntax in the SOURCE
-            if name.startswith("vs_long_") and quick:
-                continue
+            if name.startswith("vs_long_"):
+                continue        # size is C17's subject (the recursive stdlib unparser gives up on them: open finding F34a)
             cfgs = [env.ALL_CFGS[i % 8], env.ALL_CFGS[(i + 5) % 8]]
             old_cfgs = cfgs
             if f31:
